@@ -40,8 +40,68 @@ def run(chk) -> None:
     repo = chk.repo
     chk.rule("R33a", "every LintedFile is built from deduplicate_in_source_space(...), which keeps a violation only if its source signature is new and returns the kept ones sorted by source (line, position); records are serialised sorted by (line, position, code)")
     chk.rule("R33b", "source signatures contain check tuple and description (lint errors: also edit raws and source-fix (edit, start, stop)) and never a templated-space attribute")
+    chk.rule("R33c", "each rendering variant is linted and patched against its own templated file: the tree and the templated_file handed to lint_fix_parsed / generate_source_patches belong to the same variant")
     _r33a(chk, repo)
     _r33b(chk, repo)
+    _r33c(chk, repo)
+
+
+def _r33c(chk, repo) -> None:
+    """A file with unreached template branches is rendered in several variants and each is linted;
+    the results meet in deduplicate_in_source_space.  Fix discarding and source mapping go through
+    the templated file that is passed along: with the wrong variant's file the rendered offsets of
+    one variant are mapped through another, the same source violation comes back with different
+    fixes (different signature) and is reported twice."""
+    lp = repo.fn("src/sqlfluff/core/linter/linter.py", "Linter.lint_parsed")
+    cfg = cfg_of(lp)
+
+    def owner(e, at, depth=0):
+        """(variable, reaching defs) of the variant an expression is an attribute of / derives from."""
+        if isinstance(e, ast.Attribute) and isinstance(e.value, ast.Name) and e.attr in ("tree", "templated_file"):
+            return (e.value.id, frozenset(id(d) for d in cfg.reaching().defs_at(at, e.value.id)))
+        if isinstance(e, ast.Name) and depth < 4:
+            os_ = origins(cfg, e, at)
+            owners = set()
+            for o in os_:
+                if o.kind != "expr":
+                    return None
+                x = o.expr
+                if isinstance(x, ast.Call) and last_attr(x) == "lint_fix_parsed" and o.path == (0,):
+                    # the fixed tree returned for a variant belongs to the variant whose tree went in
+                    a = x.args[0] if x.args else kwarg(x, "tree")
+                    owners.add(owner(a, o.stmt, depth + 1))
+                elif not o.path:
+                    owners.add(owner(x, o.stmt, depth + 1))
+                else:
+                    return None
+            return owners.pop() if len(owners) == 1 else None
+        return None
+
+    n = 0
+    for c in calls_in(lp):
+        name = last_attr(c) if isinstance(c.func, ast.Attribute) else (c.func.id if isinstance(c.func, ast.Name) else None)
+        if name == "lint_fix_parsed":
+            t = c.args[0] if c.args else kwarg(c, "tree")
+            f = kwarg(c, "templated_file") or (c.args[6] if len(c.args) > 6 else None)
+        elif name == "generate_source_patches":
+            t = c.args[0] if c.args else kwarg(c, "tree")
+            f = c.args[1] if len(c.args) > 1 else kwarg(c, "templated_file")
+        else:
+            continue
+        n += 1
+        st = cfg.stmt_of(c)
+        if f is None or (isinstance(f, ast.Constant) and f.value is None):
+            chk.fail("R33c", c, f"{name}() is not given the variant's templated file", detail=f"{name}: tree and templated_file of one variant")
+            continue
+        ot, of_ = (owner(t, st) if t is not None else None), owner(f, st)
+        chk.require(
+            ot is not None and ot == of_, "R33c", c,
+            f"{name}() receives the tree of `{ot[0] if ot else norm(t) if t is not None else '?'}` but the templated file of `{of_[0] if of_ else norm(f)}`: "
+            "the variant's rendered positions are mapped through another variant's source map",
+            detail=f"{name}: tree and templated_file of one variant",
+        )
+    chk.count("R33c.variant_call_sites", n)
+    chk.floor("R33c.variant_call_sites", 4)
 
 
 def _r33a(chk, repo) -> None:
@@ -243,7 +303,8 @@ def _r33b(chk, repo) -> None:
             if f is lint_err:
                 _lint_signature(chk, cfg, f, r, comps)
         # no templated-space reads anywhere in a signature
-        bad = [n for n in ast.walk(f) if isinstance(n, ast.Attribute) and n.attr.startswith("templated")]
+        # (rendered-file coordinates: PositionMarker's templated_* and working_* attributes)
+        bad = [n for n in ast.walk(f) if isinstance(n, ast.Attribute) and n.attr.startswith(("templated", "working"))]
         for n in bad:
             chk.fail(
                 "R33b", n,
@@ -309,6 +370,24 @@ from ..selftest import Variant  # noqa: E402
 LINTER = "src/sqlfluff/core/linter/linter.py"
 
 VARIANTS = [
+    Variant(
+        "signature-identifies-deletes-by-working-location", ERRORS,
+        "            tuple(e.raw for e in f.edit) if f.edit else None for f in self.fixes\n",
+        "            tuple(e.raw for e in f.edit) if f.edit else (f.anchor.raw, f.anchor.pos_marker.working_loc) for f in self.fixes\n",
+        "R33b", "source_signature", "seeded C33-1: a delete fix inside a loop body is reported once per iteration",
+    ),
+    Variant(
+        "alternate-variant-linted-with-root-templated-file", LINTER,
+        "                    templated_file=alternate_variant.templated_file,\n",
+        "                    templated_file=templated_file,\n",
+        "R33c", "lint_parsed", "seeded C33-2",
+    ),
+    Variant(
+        "quiet-alternate-variant-through-locals", LINTER,
+        "                ) = cls.lint_fix_parsed(\n                    alternate_variant.tree,\n",
+        "                ) = cls.lint_fix_parsed(\n                    tree=alternate_variant.tree,\n",
+        "QUIET", None, "tree passed by keyword",
+    ),
     Variant(
         "lintedfile-gets-raw-violations", LINTER,
         "            LintedFile.deduplicate_in_source_space(violations),\n",
